@@ -349,6 +349,7 @@ func (e *Engine) CheckProperty(prop, tier, verifDir string, verbose, writeEviden
 	}
 	known := loadKnownFindings(filepath.Join(verifDir, "known_findings.txt"))
 	baseline := loadBaseline(filepath.Join(verifDir, "baseline", "obligations.json"))
+	e.Baseline = baseline
 	results := make([]*FnResult, len(keys))
 	var wg sync.WaitGroup
 	sem := make(chan struct{}, 12)
